@@ -268,27 +268,61 @@ fn count_marks(t: &Sx) -> u64 {
     v[t.root as usize]
 }
 
-/// replace the (single) marker of `outer` by `inner`
-fn substitute(outer: &Sx, inner: &Sx) -> Sx {
-    let mut t = inner.clone();
-    let inner_root = t.root;
-    let off = t.nodes.len() as u32;
-    let mut map: Vec<u32> = Vec::with_capacity(outer.nodes.len());
-    for n in &outer.nodes {
-        match n {
-            SxNode::A(b) if b.as_slice() == SENTINEL_MARK => map.push(inner_root),
-            SxNode::A(b) => {
-                map.push(t.push_atom(b));
-            }
-            SxNode::P(l, r) => {
-                let p = t.push_pair(map[*l as usize], map[*r as usize]);
-                map.push(p);
-            }
+/// Assemble the retained parts: every sentinel occurrence of a part (depth-first, left to
+/// right) is replaced by the assembly that starts at the next unused part. None if the parts
+/// do not close all holes exactly, or if the expansion gets too large.
+fn assemble(parts: &[&Sx]) -> Option<Sx> {
+    fn has_marks(p: &Sx) -> Vec<bool> {
+        let mut v = vec![false; p.nodes.len()];
+        for i in 0..p.nodes.len() {
+            v[i] = match &p.nodes[i] {
+                SxNode::A(b) => b.as_slice() == SENTINEL_MARK,
+                SxNode::P(l, r) => v[*l as usize] || v[*r as usize],
+            };
         }
+        v
     }
-    let _ = off;
-    t.root = map[outer.root as usize];
-    t
+    fn fill(parts: &[&Sx], idx: &mut usize, t: &mut Sx, budget: &mut usize) -> Option<u32> {
+        let p = *parts.get(*idx)?;
+        *idx += 1;
+        let marks = has_marks(p);
+        let mut memo: std::collections::HashMap<u32, u32> = std::collections::HashMap::new();
+        build(p, p.root, &marks, &mut memo, parts, idx, t, budget)
+    }
+    #[allow(clippy::too_many_arguments)]
+    fn build(p: &Sx, n: u32, marks: &[bool], memo: &mut std::collections::HashMap<u32, u32>, parts: &[&Sx], idx: &mut usize, t: &mut Sx, budget: &mut usize) -> Option<u32> {
+        if *budget == 0 {
+            return None;
+        }
+        *budget -= 1;
+        if !marks[n as usize]
+            && let Some(x) = memo.get(&n)
+        {
+            return Some(*x);
+        }
+        let r = match &p.nodes[n as usize] {
+            SxNode::A(b) if b.as_slice() == SENTINEL_MARK => fill(parts, idx, t, budget)?,
+            SxNode::A(b) => t.push_atom(b),
+            SxNode::P(l, r) => {
+                let li = build(p, *l, marks, memo, parts, idx, t, budget)?;
+                let ri = build(p, *r, marks, memo, parts, idx, t, budget)?;
+                t.push_pair(li, ri)
+            }
+        };
+        if !marks[n as usize] {
+            memo.insert(n, r);
+        }
+        Some(r)
+    }
+    let mut t = Sx { nodes: Vec::new(), root: 0 };
+    let mut idx = 0usize;
+    let mut budget = 400_000usize;
+    let root = fill(parts, &mut idx, &mut t, &mut budget)?;
+    if idx != parts.len() {
+        return None;
+    }
+    t.root = root;
+    Some(t)
 }
 
 /// cut `t` at a random single occurrence: returns (outer with marker, inner)
@@ -338,16 +372,38 @@ impl Scenario for C19 {
             cfg.medium_atoms = false;
         }
         let base = gen_tree(rng, &cfg);
-        // chain of cuts
-        let ncuts = 1 + rng.usize(6);
-        let mut parts: Vec<Sx> = Vec::new();
-        let mut rest = base;
-        for _ in 0..ncuts {
-            let (outer, inner) = cut_tree(rng, &rest, 8);
-            parts.push(outer);
-            rest = inner;
+        // split into parts in the order in which they have to be added (holes are filled
+        // depth-first, left to right); 1/4 of the cases cut a part at two places at once
+        fn split(rng: &mut Rng, t: Sx, budget: &mut u32, multi: bool, out: &mut Vec<Sx>) {
+            if *budget == 0 || matches!(t.nodes[t.root as usize], SxNode::A(_)) && !rng.chance(1, 10) {
+                out.push(t);
+                return;
+            }
+            *budget -= 1;
+            if multi
+                && rng.chance(1, 2)
+                && let SxNode::P(l, r) = t.compact().nodes[t.compact().root as usize]
+            {
+                let c = t.compact();
+                let (ol, il) = cut_tree(rng, &c.subtree(l), 20);
+                let (or, ir) = cut_tree(rng, &c.subtree(r), 20);
+                let mut o = ol.clone();
+                let lroot = o.root;
+                let rroot = o.graft(&or);
+                o.root = o.push_pair(lroot, rroot);
+                out.push(o.compact());
+                split(rng, il, budget, multi, out);
+                split(rng, ir, budget, multi, out);
+                return;
+            }
+            let (outer, inner) = cut_tree(rng, &t, 8);
+            out.push(outer);
+            split(rng, inner, budget, multi, out);
         }
-        parts.push(rest); // final part: no marker
+        let multi = rng.chance(1, 4);
+        let mut budget = 1 + rng.below(6) as u32;
+        let mut parts: Vec<Sx> = Vec::new();
+        split(rng, base, &mut budget, multi, &mut parts);
         let chain_len = parts.len();
         // alternatives: perturbed copies, a repeated list item, a bare terminator
         let nalt = rng.usize(4);
@@ -409,8 +465,8 @@ impl Scenario for C19 {
         }
         // every part carries at most one marker in this scenario
         let marks: Vec<u64> = case.parts.iter().map(|p| count_marks(&p.0)).collect();
-        if marks.iter().any(|m| *m > 1) {
-            return out; // not a case of this scenario (can only arise from hand-edited files)
+        if marks.iter().any(|m| *m > 4) {
+            return out; // more sentinel occurrences per part than the generator ever produces
         }
         let mut a = Allocator::new();
         let sentinel = a.new_pair(NodePtr::NIL, NodePtr::NIL).unwrap();
@@ -509,10 +565,13 @@ impl Scenario for C19 {
                         if done {
                             // decode and compare with the assembled tree
                             let bytes = ser.get_ref().clone();
-                            let mut acc = case.parts[retained.last().unwrap().1].0.clone();
-                            for (_, q) in retained.iter().rev().skip(1) {
-                                acc = substitute(&case.parts[*q].0, &acc);
-                            }
+                            let seq_parts: Vec<&Sx> = retained.iter().map(|(_, q)| &case.parts[*q].0).collect();
+                            let Some(acc) = assemble(&seq_parts) else {
+                                // expansion too large for the model: nothing to compare against
+                                drop(g);
+                                return fin(out, fp);
+                            };
+                            let multi_sentinel = retained.iter().any(|(_, q)| marks[*q] > 1);
                             // classification used to match the known finding narrowly
                             let divergent = retained.iter().enumerate().any(|(i, (_, q))| undone_at.get(i).map(|u| u.iter().any(|h| *h != part_ids[*q])).unwrap_or(false));
                             let any_undo = !undone_at.is_empty();
@@ -523,7 +582,7 @@ impl Scenario for C19 {
                                 let mut repeat = "none";
                                 let node_of = |c: u64| added_nodes[c as usize - 1];
                                 for (i, (c, q)) in retained.iter().enumerate() {
-                                    if marks[*q] == 1 && retained.iter().skip(i + 1).any(|(c2, _)| node_of(*c2) == node_of(*c)) {
+                                    if marks[*q] >= 1 && retained.iter().skip(i + 1).any(|(c2, _)| node_of(*c2) == node_of(*c)) {
                                         let list_shape = match &case.parts[*q].0.nodes[case.parts[*q].0.root as usize] {
                                             SxNode::P(_, r) => matches!(&case.parts[*q].0.nodes[*r as usize], SxNode::A(b) if b.as_slice() == SENTINEL_MARK),
                                             SxNode::A(_) => true, // the bare sentinel
@@ -553,6 +612,7 @@ impl Scenario for C19 {
                                 let overlap = overlap || node_readded;
                                 v.with("readd", if divergent { "divergent-after-undo" } else { "none-or-same" })
                                     .with("undo_before", if any_undo { "yes" } else { "no" })
+                                    .with("multi_sentinel", if multi_sentinel { "yes" } else { "no" })
                                     .with("undo_reuse", if overlap { "yes" } else { "no" })
                                     .with("fresh_serializer", if fresh { "correct" } else { "also-wrong" })
                                     .with("repeat", repeat)
@@ -756,7 +816,7 @@ impl Scenario for C19 {
     }
     fn assumptions() -> &'static [&'static str] {
         &[
-            "each added part contains the sentinel at most once (the documented use of the API: the next add is placed at 'the' sentinel of the previous one)",
+            "3/4 of the cases use parts with at most one sentinel occurrence (the documented use of the API); 1/4 cut a part at two places at once (repeated sentinel inside one added tree)",
             "an undo token is used only while the state it was taken in is a prefix of the retained history",
             "no add after completion",
         ]
